@@ -7,7 +7,13 @@ NAME=$1; PROP=$2; TIER=${3:-quick}
 ISO=/tmp/sv-$NAME
 rm -rf $ISO; mkdir -p $ISO
 rsync -a --exclude .git --exclude target /repo/ $ISO/repo/
-rsync -a --exclude .git --exclude .work /verif/ $ISO/verif/
+if [ -n "${SEED_FROM_HEAD:-}" ]; then
+  # the committed tree (seed_all.sh: immune to edits in progress) + the build caches
+  mkdir -p $ISO/verif; git -C /verif archive HEAD | tar -x -C $ISO/verif
+  for t in /verif/harness/target /verif/harness20/target-*; do [ -d $t ] && rsync -a $t $ISO/verif/$(basename $(dirname $t))/; done
+else
+  rsync -a --exclude .git --exclude .work /verif/ $ISO/verif/
+fi
 (cd $ISO/repo && patch -s -p1 < /verif/seeded/$NAME/patch.diff) || { echo "patch does not apply"; rm -rf $ISO; exit 2; }
 sed -i "s|path = \"/repo\"|path = \"$ISO/repo\"|" $ISO/verif/harness/Cargo.toml $ISO/verif/harness20/Cargo.toml
 grep -rl '"/verif/' $ISO/verif/harness/src | xargs -r sed -i "s|\"/verif/|\"$ISO/verif/|g"
